@@ -421,3 +421,49 @@ Proof.
     split; vm_compute; reflexivity.
   - split; [vm_compute; discriminate|]. split; [vm_compute; reflexivity | vm_compute; discriminate].
 Qed.
+
+(** ** Known finding C13-F2: [shapes_namespace] is NOT a pure relabelling.
+
+    Root cause of C05-F1 (the profiler mints shape references in the DEFAULT
+    shapes namespace whatever [shapes_namespace] says), seen from C13: the
+    cleaning of empty shapes deletes the candidates that refer to a removed
+    shape by comparing NAMES, so under a custom namespace the reference to a
+    shape removed as empty survives the cleaning and wins the node-kind merge,
+    where under the default namespace the constraint falls back to [IRI].
+    The shape of K1 is empty here because [namespaces_to_ignore] covers the
+    instantiation property (no typing constraint) and its only property is
+    held by half of its instances (threshold 1).  Same graph, same options,
+    two shapes namespaces: [ex:p IRI] against [ex:p @<http://weso.es/shapes/K1>]. *)
+From Shexer Require Model.NsFilter Model.Run2.
+
+Definition c13_sn_cfg (shapes_ns : str) : rcfg :=
+  {| r_tau := c_RDF_TYPE; r_targets := None; r_ns := []; r_shapes_ns := shapes_ns; r_cap := (-1)%Z;
+     r_inverse := false; r_remove_empty := true; r_discard_useless := true; r_keep_less_specific := true;
+     r_all_compliant := true; r_disable_or := true; r_allow_redundant_or := false; r_allow_opt := true;
+     r_disable_exact := false; r_disable_comments := false; r_mode := FMixed |}.
+
+Definition c13_sn_iri (s : string) : node := Node Rdf.KIri (Str s).
+
+Definition c13_sn_graph : graph :=
+  [T (c13_sn_iri "http://ex.org/a") c_RDF_TYPE (ON (c13_sn_iri "http://ex.org/K0"));
+   T (c13_sn_iri "http://ex.org/b") c_RDF_TYPE (ON (c13_sn_iri "http://ex.org/K1"));
+   T (c13_sn_iri "http://ex.org/c") c_RDF_TYPE (ON (c13_sn_iri "http://ex.org/K1"));
+   T (c13_sn_iri "http://ex.org/a") (Str "http://ex.org/p") (ON (c13_sn_iri "http://ex.org/b"));
+   T (c13_sn_iri "http://ex.org/b") (Str "http://ex.org/q") (OL (Str "v") (Str "http://www.w3.org/2001/XMLSchema#string"))].
+
+Definition c13_sn_ign : list str := [Str "http://www.w3.org/1999/02/22-rdf-syntax-ns#"].
+
+(** per shape: its name and the value types of its constraints *)
+Definition c13_sn_types (c : rcfg) : list (str * list (list str)) :=
+  match Run2.run_shapes2 BAlg c (b_ratio 1 1) c13_sn_graph (NsFilter.filter_ns c13_sn_ign c13_sn_graph) with
+  | inl (_, l) => map (fun s => (sh_name s, map s_types (sh_stmts s))) l
+  | inr _ => []
+  end.
+
+Lemma C13_shapes_namespace_refuted :
+  c_clean_before_merge = true ->     (* the order of ClassShexer.shex_classes since a3b99df (generated flag) *)
+  c13_sn_types (c13_sn_cfg c_SHAPES_DEFAULT_NAMESPACE) =
+    [(Str "%<http://weso.es/shapes/K0>", [[Str "IRI"]])] /\
+  c13_sn_types (c13_sn_cfg (Str "http://my.shapes/ns#")) =
+    [(Str "%<http://my.shapes/ns#K0>", [[Str "%<http://weso.es/shapes/K1>"]])].
+Proof. intros E; first [ vm_compute in E; discriminate E | split; vm_compute; reflexivity ]. Qed.
